@@ -123,6 +123,7 @@ func (f *FifoMapCache[K, V]) Delete(key K) {
 		if partition != nil && partition.Has(key) {
 			partition.Delete(key)
 		}
+		f.valuePartitionIndex.Delete(key)
 	}
 }
 
